@@ -12,7 +12,7 @@ func init() {
 	register(&propDef{
 		ID: "C07",
 		Info: propInfo{
-			Technique: "lexical containment + path analysis + sibling agreement over the three worker-function wrappers",
+			Technique:   "lexical containment + path analysis + sibling agreement over the three worker-function wrappers",
 			Explanation: "Decides the structural part of 'own outcome per handle, panics contained': (R07.1) the user function of NewWorker/NewErrWorker/NewResultWorker is called only lexically inside a function literal passed to utils.WithSafe; WithSafe has a named error result, a deferred literal that calls recover() and assigns that result when the recovered value is non-nil, and calls its argument exactly once; Func/ErrFunc/ResultFunc call the job's function value only behind a nil test; (R07.2) in each wrapper, after WithSafe every path counts exactly one of Failed/Successful; Failed only where the selected error was tested non-nil, together with the worker-level sendError (and the job-level sendError for the error/result kinds); SelectError returns its first non-nil argument; (R07.3) single-job constructors give each job a fresh NewResponse; sendResult/sendError tag the Result with the receiver's own id; Result() returns Data, Err of the value read from the receiver's own response; (R07.4) job id and data are written only in constructors' composite literals; loadJobConfigs seeds the id from the generator and applies the options afterwards; WithJobId(\"\") is a no-op; batch ids go through generateGroupId.",
 			NotDecided:  []string{"exactly one of sendResult/sendError per job (needs value correlation between err==nil and the branch inside the closure)", "values: that the payload delivered equals what the user function returned"},
 			Assumptions: []string{"recover() semantics"},
@@ -185,8 +185,10 @@ func (c *Ctx) ruleRecoverWrapper(rule string) {
 			})
 			return true
 		})
-		c.Rep.check(named != nil && recovers, rule, ws.Short(), "WithSafe does not turn a panic into its error result", c.P.pos(ws.Body), "named error result assigned from recover() in a deferred literal",
-			"WithSafe must have a named error result that a deferred function assigns when recover() returns non-nil; otherwise a panic propagates or is swallowed as success")
+		_ = recovers
+		c.Rep.check(named != nil, rule, ws.Short(), "WithSafe has no named error result", c.P.pos(ws.Body), "named error result",
+			"WithSafe must have a named error result (a deferred function can only change a named result)")
+		recoveredPaths := 0
 		// ... on EVERY path of the recovered branch (a type switch without default, an early return, would
 		// turn some panics into a nil error: the job is then counted as successful)
 		for _, lit := range c.P.Funcs {
@@ -219,12 +221,15 @@ func (c *Ctx) ruleRecoverWrapper(rule string) {
 				}
 				if sg.has("recovered=nonnil") {
 					n++
+					recoveredPaths++
 					c.Rep.check(sg.has("set-result"), rule, ws.Short(), "a recovered panic leaves the error result nil on some path", sg.End, "recovered panic ⇒ error result assigned on this path",
 						"a path of WithSafe's deferred function recovers a panic (non-nil value) and does not assign the error result: that panic is reported as success ["+strings.Join(sg.Syms, " ")+"]")
 				}
 			}
 			_ = n
 		}
+		c.Rep.check(recoveredPaths > 0, rule, ws.Short(), "WithSafe does not recover", c.P.pos(ws.Body), "a deferred function literal calls recover() and tests the value",
+			"WithSafe has no deferred function literal that calls recover() and distinguishes a recovered panic: a panic in the user function propagates (or is swallowed as success)")
 		// fn called exactly once, not inside the deferred literal
 		var fnParam types.Object
 		for _, fld := range ws.Type.Params.List {
